@@ -424,9 +424,10 @@ class PreTranslator(ASTTranslator):
     def postBytes(translator, node):  # Python <= 3.7
         node.external = node.constant = True
     def postDict(translator, node):
-        node.external = True
+        # a display is external unless it holds something that is not (a lambda, an expression with a query variable)
+        node.external = all(getattr(child, 'external', False) for child in get_child_nodes(node))
     def postList(translator, node):
-        node.external = True
+        node.external = all(getattr(child, 'external', False) for child in get_child_nodes(node))
     def postkeyword(translator, node):
         node.constant = node.value.constant
     def postIndex(translator, node):  # Python <= 3.7
